@@ -38,7 +38,8 @@ ASSUMPTIONS = [
     "the inductive RSPT chain (amplitude tensors of order < n are the "
     "determinant coefficients) is the hypothesis under which each order is "
     "checked - it is established order by order by the run itself",
-    "orders <= 2 (quick) / <= 3 (thorough); model spaces with 3+3 spin "
+    "orders <= 2 (quick; plus third-order singles and triples amplitudes) / "
+    "<= 3 (thorough); model spaces with 3+3 spin "
     "orbitals (quadruples need 4+4: thorough uses one 4+4 model for the "
     "second-order quadruples)",
 ]
@@ -134,174 +135,171 @@ def run(ctx):
                           "to the code)", {"call": c, "model": v,
                                            "implementation": repr(ex)}, True)
 
-    # ---- explicit RSPT -----------------------------------------------------
+    # ---- explicit RSPT (one worker process per derived quantity) ----------
+    jobs = []
     for variant in ("mp", "re"):
-        gs = adcgen.GroundState(adcgen.Operators(variant=variant))
-        n_models = 2 if quick else 4
-        for mi in range(n_models):
-            space = detspace.Space(3, 3, rng.randrange(1 << 30),
-                                   canonical=(variant == "mp"))
-            t0 = time.time()
-            E, psi = space.rspt(variant, max_order)
-            ctx.note(f"{variant} model {mi}: RSPT to order {max_order} in "
-                     f"{time.time() - t0:.1f}s")
-            model = make_model(space, psi)
-            # energies
-            for n in range(0, max_order + 1):
-                try:
-                    val = evaluate(model, gs.energy(n))
-                except Exception as ex:
-                    ctx.violation(f"C02:energy-exception:{variant}:{n}",
-                                  f"energy({n}) raised {ex!r}", {}, False)
+        seeds = [rng.randrange(1 << 30) for _ in range(2 if quick else 4)]
+        for n in range(0, max_order + 1):
+            jobs.append(("energy", variant, n, None, seeds))
+        amp_orders = list(range(1, max_order + 1))
+        for n in amp_orders:
+            for k in range(1, min(2 * n, 3) + 1):
+                if n == 1 and k == 1:
                     continue
-                ok = val == E[n] % P
-                ctx.case(key=("energy", variant, n, space.seed),
-                         nontrivial=n >= 1,
-                         sample={"quantity": f"E({n}) {variant}",
-                                 "model_seed": space.seed,
-                                 "value_mod_P": val}, kind=f"energy:{variant}")
-                if not ctx.obligation(f"{variant} energy order {n} = explicit "
-                                      f"RSPT (model {space.seed})", ok):
-                    ctx.violation(
-                        f"C02:energy:{variant}:order{n}",
-                        f"derived {variant} energy of order {n} differs from "
-                        "explicit determinant-space RSPT",
-                        {"variant": variant, "order": n,
-                         "model": {"nocc": 3, "nvirt": 3, "seed": space.seed},
-                         "derived": val, "explicit": E[n] % P,
-                         "expression": str(gs.energy(n))[:600]}, True)
-            # amplitudes (mp) / residuals (re)
-            for n in range(1, max_order + 1):
-                for k in range(1, min(2 * n, 3) + 1):
-                    if n == 1 and k == 1:
-                        continue
-                    names = NAMES[k]
-                    syms = get_symbols(names)
-                    occs = syms[:k]
-                    virts = syms[k:]
-                    try:
-                        if variant == "mp":
-                            expr = gs.amplitude(n, CLASSES[k], names)
-                        else:
-                            expr = gs.amplitude_residual(n, CLASSES[k], names)
-                        expr = Expr(expr).expand()
-                    except Exception as ex:
-                        ctx.violation(
-                            f"C02:amplitude-exception:{variant}:{n}:{k}",
-                            f"amplitude/residual raised {ex!r}", {}, False)
-                        continue
-                    combos = [(o, v) for o in itertools.combinations(
-                        space.occ, k) for v in itertools.combinations(
-                        space.virt, k)]
-                    if len(combos) > (4 if quick else 9):
-                        combos = rng.sample(combos, 4 if quick else 9)
-                    for o, v in combos:
-                        env_syms = list(occs) + list(virts)
-                        env_vals = list(o) + list(v)
-                        val = evaluate(model, expr, env_syms, env_vals)
-                        if variant == "mp":
-                            want = space.amplitude(psi[n], list(v), list(o))
-                            what = "amplitude"
-                        else:
-                            want = 0
-                            what = "residual"
-                        ok = val == want % P
-                        ctx.case(key=(what, variant, n, k, space.seed, o, v),
-                                 nontrivial=True, kind=f"{what}:{variant}:"
-                                 f"{n}:{CLASSES[k]}",
-                                 sample={"quantity": f"{what} order {n} "
-                                         f"{CLASSES[k]}", "occ": o, "virt": v,
-                                         "value_mod_P": val})
-                        if not ctx.obligation(
-                                f"{variant} {what} order {n} {CLASSES[k]} "
-                                f"{o}{v} (model {space.seed})", ok):
-                            ctx.violation(
-                                f"C02:{what}:{variant}:order{n}:{CLASSES[k]}",
-                                f"derived {variant} {what} of order {n} "
-                                f"({CLASSES[k]}) disagrees with the explicit "
-                                "perturbed wavefunction",
-                                {"variant": variant, "order": n,
-                                 "class": CLASSES[k], "occ": o, "virt": v,
-                                 "model": {"nocc": 3, "nvirt": 3,
-                                           "seed": space.seed},
-                                 "derived": val, "explicit": want % P}, True)
-            # wavefunction normalisation factor 1/<Psi|Psi> to fourth
-            # order (needs the explicit wavefunctions to third order; the
-            # product S^(2)*S^(2) first shows up at order 4)
-            if mi == 0:
-                E3, psi3 = space.rspt(variant, 3)
-                model3 = make_model(space, psi3)
-                Sser = []
-                for n in range(5):
-                    Sser.append(sum(psi3[m].dot(psi3[n - m])
-                                    for m in range(n + 1)
-                                    if m <= 3 and n - m <= 3) % P)
-                norm = detspace.series_inv(Sser, 4)
-                for n in range(5):
-                    try:
-                        val = evaluate(model3, gs.norm_factor(n))
-                    except Exception as ex:
-                        ctx.violation(f"C02:norm-exception:{variant}:{n}",
-                                      f"norm_factor({n}) raised {ex!r}", {},
-                                      False)
-                        continue
-                    ctx.case(key=("norm", variant, n, space.seed),
-                             nontrivial=n >= 2, kind=f"norm_factor:{variant}")
-                    if not ctx.obligation(
-                            f"{variant} norm factor order {n} = explicit "
-                            f"1/<Psi|Psi> (model {space.seed})",
-                            val == norm[n]):
-                        ctx.violation(
-                            f"C02:norm_factor:{variant}:order{n}",
-                            f"derived normalisation factor of order {n} "
-                            "differs from the explicit series of 1/<Psi|Psi>",
-                            {"variant": variant, "order": n,
-                             "model": {"nocc": 3, "nvirt": 3,
-                                       "seed": space.seed},
-                             "derived": val, "explicit": norm[n],
-                             "expression": str(gs.norm_factor(n))[:600]},
-                            True)
-            # one-particle expectation value (mp)
+                jobs.append(("amp", variant, n, k, seeds))
+        if quick and variant == "mp":
+            # third order in the quick tier: the classes in which the
+            # recursion subtracts more than one energy/amplitude product
+            jobs.append(("amp", variant, 3, 1, seeds[:1]))
+            jobs.append(("amp", variant, 3, 3, seeds[:1]))
+        jobs.append(("norm", variant, None, None, seeds[:1]))
+        if variant == "mp":
+            for n in range(max_order + 1):
+                jobs.append(("expect", variant, n, None, seeds))
+    import concurrent.futures as cf
+    import multiprocessing as mp_
+    with cf.ProcessPoolExecutor(max_workers=12,
+                                mp_context=mp_.get_context("fork")) as ex:
+        results = list(ex.map(_job, [(j, quick) for j in jobs]))
+    for job, res in zip(jobs, results):
+        for r in res:
+            if r["type"] == "note":
+                ctx.note(r["text"])
+                continue
+            if r["type"] == "exception":
+                ctx.violation(r["key"], r["what"], {}, False)
+                continue
+            ctx.case(key=tuple(r["case_key"]), nontrivial=r["nontrivial"],
+                     kind=r["kind"], sample=r.get("sample"))
+            if not ctx.obligation(r["name"], r["ok"]):
+                ctx.violation(r["key"], r["what"], r["replay"], True)
+
+
+def _job(arg):
+    """derive one quantity and compare it with explicit RSPT on the model
+    Hamiltonians of the given seeds; runs in a worker process"""
+    (kind, variant, n, k, seeds), quick = arg
+    out = []
+    t0 = time.time()
+    gs = adcgen.GroundState(adcgen.Operators(variant=variant))
+    need = {"energy": n, "amp": n, "norm": 3, "expect": n}[kind] or 0
+    need = max(need, 1)
+    rng = __import__("random").Random(hash((kind, variant, n, k)) & 0xffff)
+    try:
+        if kind == "energy":
+            expr = gs.energy(n)
+        elif kind == "amp":
+            names = NAMES[k]
             if variant == "mp":
-                dmat = [[(numeric._h(space.seed, "d", p, q) % 1999 - 999)
-                         for q in range(space.n)] for p in range(space.n)]
-                modeld = make_model(space, psi, dmat)
-                # explicit: N(l)/S(l)
-                def Dop(vec):
-                    return space.one_body(dmat, vec)
-                Nser, Sser = [], []
-                for n in range(max_order + 1):
-                    Nn = sum(psi[m].dot(Dop(psi[n - m]))
-                             for m in range(n + 1)) % P
-                    Sn = sum(psi[m].dot(psi[n - m])
-                             for m in range(n + 1)) % P
-                    Nser.append(Nn)
-                    Sser.append(Sn)
-                ratio = detspace.series_mul(
-                    Nser, detspace.series_inv(Sser, max_order), max_order)
-                for n in range(max_order + 1):
-                    try:
-                        ev = gs.expectation_value(n, 1)
-                        val = evaluate(modeld, ev)
-                    except Exception as ex:
-                        ctx.violation(f"C02:expectation-exception:{n}",
-                                      f"expectation_value({n},1) raised "
-                                      f"{ex!r}", {}, False)
-                        continue
-                    ok = val == ratio[n]
-                    ctx.case(key=("expectation", n, space.seed),
-                             nontrivial=n >= 2, kind="expectation_value")
-                    if not ctx.obligation(
-                            f"one-particle expectation value order {n} "
-                            f"(model {space.seed})", ok):
-                        ctx.violation(
-                            f"C02:expectation_value:order{n}",
-                            f"derived expectation value of order {n} differs "
-                            "from the explicit <Psi|D|Psi>/<Psi|Psi> series",
-                            {"order": n, "derived": val,
-                             "explicit": ratio[n],
-                             "model": {"nocc": 3, "nvirt": 3,
-                                       "seed": space.seed}}, True)
+                expr = gs.amplitude(n, CLASSES[k], names)
+            else:
+                expr = gs.amplitude_residual(n, CLASSES[k], names)
+            expr = Expr(expr).expand()
+        elif kind == "norm":
+            expr = [gs.norm_factor(m) for m in range(5)]
+        else:
+            expr = gs.expectation_value(n, 1)
+    except Exception as ex:
+        return [{"type": "exception",
+                 "key": f"C02:{kind}-exception:{variant}:{n}:{k}",
+                 "what": f"{kind} derivation raised {ex!r}"}]
+    out.append({"type": "note", "text": f"derive {kind} {variant} n={n} "
+                f"k={k}: {time.time() - t0:.1f}s"})
+    for seed in seeds:
+        space = detspace.Space(3, 3, seed, canonical=(variant == "mp"))
+        E, psi = space.rspt(variant, need)
+        model = make_model(space, psi)
+        mdl = {"nocc": 3, "nvirt": 3, "seed": seed}
+        if kind == "energy":
+            val = evaluate(model, expr)
+            out.append({
+                "type": "case", "case_key": ("energy", variant, n, seed),
+                "nontrivial": n >= 1, "kind": f"energy:{variant}",
+                "sample": {"quantity": f"E({n}) {variant}",
+                           "model_seed": seed, "value_mod_P": val},
+                "name": f"{variant} energy order {n} = explicit RSPT (model "
+                        f"{seed})", "ok": val == E[n] % P,
+                "key": f"C02:energy:{variant}:order{n}",
+                "what": f"derived {variant} energy of order {n} differs "
+                        "from explicit determinant-space RSPT",
+                "replay": {"variant": variant, "order": n, "model": mdl,
+                           "derived": val, "explicit": E[n] % P,
+                           "expression": str(expr)[:600]}})
+        elif kind == "amp":
+            syms = get_symbols(NAMES[k])
+            combos = [(o, v) for o in itertools.combinations(space.occ, k)
+                      for v in itertools.combinations(space.virt, k)]
+            nmax = 4 if quick else 9
+            if len(combos) > nmax:
+                combos = rng.sample(combos, nmax)
+            what = "amplitude" if variant == "mp" else "residual"
+            for o, v in combos:
+                val = evaluate(model, expr, list(syms), list(o) + list(v))
+                want = space.amplitude(psi[n], list(v), list(o)) \
+                    if variant == "mp" else 0
+                out.append({
+                    "type": "case",
+                    "case_key": (what, variant, n, k, seed, o, v),
+                    "nontrivial": True,
+                    "kind": f"{what}:{variant}:{n}:{CLASSES[k]}",
+                    "sample": {"quantity": f"{what} order {n} {CLASSES[k]}",
+                               "occ": o, "virt": v, "value_mod_P": val},
+                    "name": f"{variant} {what} order {n} {CLASSES[k]} "
+                            f"{o}{v} (model {seed})",
+                    "ok": val == want % P,
+                    "key": f"C02:{what}:{variant}:order{n}:{CLASSES[k]}",
+                    "what": f"derived {variant} {what} of order {n} "
+                            f"({CLASSES[k]}) disagrees with the explicit "
+                            "perturbed wavefunction",
+                    "replay": {"variant": variant, "order": n,
+                               "class": CLASSES[k], "occ": o, "virt": v,
+                               "model": mdl, "derived": val,
+                               "explicit": want % P}})
+        elif kind == "norm":
+            # 1/<Psi|Psi> to fourth order (needs the explicit wavefunctions
+            # to third order; S^(2)*S^(2) first shows up at order 4)
+            Sser = [sum(psi[m].dot(psi[q - m]) for m in range(q + 1)
+                        if m <= 3 and q - m <= 3) % P for q in range(5)]
+            norm = detspace.series_inv(Sser, 4)
+            for q in range(5):
+                val = evaluate(model, expr[q])
+                out.append({
+                    "type": "case", "case_key": ("norm", variant, q, seed),
+                    "nontrivial": q >= 2, "kind": f"norm_factor:{variant}",
+                    "name": f"{variant} norm factor order {q} = explicit "
+                            f"1/<Psi|Psi> (model {seed})",
+                    "ok": val == norm[q],
+                    "key": f"C02:norm_factor:{variant}:order{q}",
+                    "what": f"derived normalisation factor of order {q} "
+                            "differs from the explicit series of "
+                            "1/<Psi|Psi>",
+                    "replay": {"variant": variant, "order": q, "model": mdl,
+                               "derived": val, "explicit": norm[q],
+                               "expression": str(expr[q])[:600]}})
+        else:
+            dmat = [[(numeric._h(seed, "d", p_, q_) % 1999 - 999)
+                     for q_ in range(space.n)] for p_ in range(space.n)]
+            modeld = make_model(space, psi, dmat)
+            Nser, Sser = [], []
+            for q in range(n + 1):
+                Nser.append(sum(psi[m].dot(space.one_body(dmat, psi[q - m]))
+                                for m in range(q + 1)) % P)
+                Sser.append(sum(psi[m].dot(psi[q - m])
+                                for m in range(q + 1)) % P)
+            ratio = detspace.series_mul(
+                Nser, detspace.series_inv(Sser, n), n)
+            val = evaluate(modeld, expr)
+            out.append({
+                "type": "case", "case_key": ("expectation", n, seed),
+                "nontrivial": n >= 2, "kind": "expectation_value",
+                "name": f"one-particle expectation value order {n} (model "
+                        f"{seed})", "ok": val == ratio[n],
+                "key": f"C02:expectation_value:order{n}",
+                "what": f"derived expectation value of order {n} differs "
+                        "from the explicit <Psi|D|Psi>/<Psi|Psi> series",
+                "replay": {"order": n, "derived": val, "explicit": ratio[n],
+                           "model": mdl}})
+    return out
 
 
 def replay(ctx, rep):
